@@ -178,7 +178,14 @@ class ModbusAsciiFramer(ModbusFramer):
                 else:
                     _logger.error("Not a valid unit id - {}, "
                                   "ignoring!!".format(self._header['uid']))
-                    self.resetFrame()
+                    # skip only the frame addressed to another unit
+                    self.advanceFrame()
+            elif (self._buffer[:1] == self._start and
+                  self._buffer.find(self._end) != -1):
+                # a complete frame whose LRC does not match: drop it,
+                # otherwise it blocks everything received after it
+                _logger.debug("Frame check failed, ignoring!!")
+                self.advanceFrame()
             else:
                 break
 
